@@ -64,10 +64,18 @@ fn arith(l: usize) {
     let n: usize = kani::any(); kani::assume(n <= 6 && n != l);
     assert!(run(&[PsOp::Cvr], st, n).is_none());
 }
-#[kani::proof] #[kani::stub(std::fmt::format, nofmt)] fn func_ps_ops_l0() { arith(0) }
-#[kani::proof] #[kani::stub(std::fmt::format, nofmt)] fn func_ps_ops_l1() { arith(1) }
-#[kani::proof] #[kani::stub(std::fmt::format, nofmt)] fn func_ps_ops_l2() { arith(2) }
-#[kani::proof] #[kani::stub(std::fmt::format, nofmt)] fn func_ps_ops_l3() { arith(3) }
+#[kani::proof]
+#[kani::stub(std::fmt::format, nofmt)]
+fn func_ps_ops_l0() { arith(0) }
+#[kani::proof]
+#[kani::stub(std::fmt::format, nofmt)]
+fn func_ps_ops_l1() { arith(1) }
+#[kani::proof]
+#[kani::stub(std::fmt::format, nofmt)]
+fn func_ps_ops_l2() { arith(2) }
+#[kani::proof]
+#[kani::stub(std::fmt::format, nofmt)]
+fn func_ps_ops_l3() { arith(3) }
 
 /// `n index` on a stack of `l` numbers, n any float: integers 0 <= n < l copy the n-th element from the top, integers >= l are an
 /// error, anything else (negative, fractional, NaN) is "don't care" but must not panic
@@ -89,9 +97,15 @@ fn index(l: usize) {
         assert!(got.is_none());
     }
 }
-#[kani::proof] #[kani::stub(std::fmt::format, nofmt)] fn func_ps_index_l0() { index(0) }
-#[kani::proof] #[kani::stub(std::fmt::format, nofmt)] fn func_ps_index_l2() { index(2) }
-#[kani::proof] #[kani::stub(std::fmt::format, nofmt)] fn func_ps_index_l3() { index(3) }
+#[kani::proof]
+#[kani::stub(std::fmt::format, nofmt)]
+fn func_ps_index_l0() { index(0) }
+#[kani::proof]
+#[kani::stub(std::fmt::format, nofmt)]
+fn func_ps_index_l2() { index(2) }
+#[kani::proof]
+#[kani::stub(std::fmt::format, nofmt)]
+fn func_ps_index_l3() { index(3) }
 
 /// `n j roll` for concrete small n, j on a stack of `l` arbitrary numbers: the top n elements are rotated by j (positive j moves
 /// the top element down: a b c 3 1 roll -> c a b), j is taken modulo n, n = 0 is a no-op
@@ -118,9 +132,15 @@ fn roll_all(l: usize) {
         n += 1;
     }
 }
-#[kani::proof] #[kani::stub(std::fmt::format, nofmt)] fn func_ps_roll_l1() { roll_all(1) }
-#[kani::proof] #[kani::stub(std::fmt::format, nofmt)] fn func_ps_roll_l2() { roll_all(2) }
-#[kani::proof] #[kani::stub(std::fmt::format, nofmt)] fn func_ps_roll_l3() { roll_all(3) }
+#[kani::proof]
+#[kani::stub(std::fmt::format, nofmt)]
+fn func_ps_roll_l1() { roll_all(1) }
+#[kani::proof]
+#[kani::stub(std::fmt::format, nofmt)]
+fn func_ps_roll_l2() { roll_all(2) }
+#[kani::proof]
+#[kani::stub(std::fmt::format, nofmt)]
+fn func_ps_roll_l3() { roll_all(3) }
 
 /// `n j roll` with a count that does not fit the stack (n > l as an integer or any larger float), any j: an error
 fn roll_hostile(l: usize) {
@@ -131,11 +151,16 @@ fn roll_hostile(l: usize) {
     let m: usize = kani::any(); kani::assume(m <= 6);
     assert!(run(&[PsOp::Value(n), PsOp::Value(j), PsOp::Roll], &s[..l], m).is_none());
 }
-#[kani::proof] #[kani::stub(std::fmt::format, nofmt)] fn func_ps_roll_hostile_l0() { roll_hostile(0) }
-#[kani::proof] #[kani::stub(std::fmt::format, nofmt)] fn func_ps_roll_hostile_l2() { roll_hostile(2) }
+#[kani::proof]
+#[kani::stub(std::fmt::format, nofmt)]
+fn func_ps_roll_hostile_l0() { roll_hostile(0) }
+#[kani::proof]
+#[kani::stub(std::fmt::format, nofmt)]
+fn func_ps_roll_hostile_l2() { roll_hostile(2) }
 
 /// `n j roll` with a negative / NaN count or an extreme j on a valid count: any outcome but a panic
-#[kani::proof] #[kani::stub(std::fmt::format, nofmt)]
+#[kani::proof]
+#[kani::stub(std::fmt::format, nofmt)]
 fn func_ps_roll_degenerate() {
     let s: [f32; 2] = [kani::any(), kani::any()];
     let n: f32 = kani::any();
@@ -148,7 +173,8 @@ fn func_ps_roll_degenerate() {
 
 /// sampled function, one input, one output, 4 sample bytes: every /Domain, /Encode, /Size, /Decode and every argument gives a
 /// value or an error
-#[kani::proof] #[kani::stub(std::fmt::format, nofmt)]
+#[kani::proof]
+#[kani::stub(std::fmt::format, nofmt)]
 fn func_sampled_1d_total() {
     let d: [u8; 4] = kani::any();
     let f = SampledFunction {
@@ -159,6 +185,28 @@ fn func_sampled_1d_total() {
         range: vec![kani::any(), kani::any()],
     };
     let x: [f32; 1] = [kani::any()];
+    let mut out = [0f32; 1];
+    let r = f.apply(&x, &mut out);
+    let ok = r.is_ok();
+    std::mem::forget(r); std::mem::forget(f);
+    assert!(ok || !ok);
+}
+
+/// sampled function, two inputs, one output, 4 sample bytes: every /Domain, /Encode, /Size, /Decode and every argument pair gives
+/// a value or an error (index arithmetic i0 + size0 * i1, the +1 neighbours, the range end)
+#[kani::proof]
+#[kani::stub(std::fmt::format, nofmt)]
+fn func_sampled_2d_total() {
+    let d: [u8; 4] = kani::any();
+    let inp = || SampledFunctionInput { domain: (kani::any(), kani::any()), encode_offset: kani::any(), encode_scale: kani::any(), size: kani::any::<u32>() as usize };
+    let f = SampledFunction {
+        input: vec![inp(), inp()],
+        output: vec![SampledFunctionOutput { offset: kani::any(), scale: kani::any() }],
+        data: d.to_vec().into(),
+        order: Interpolation::Linear,
+        range: vec![kani::any(), kani::any()],
+    };
+    let x: [f32; 2] = [kani::any(), kani::any()];
     let mut out = [0f32; 1];
     let r = f.apply(&x, &mut out);
     let ok = r.is_ok();
